@@ -432,13 +432,17 @@ func pick(field, form string, not bool) atom {
 
 // coreRules is the rule core of the rule-pair level: one positive rule per field, negated rules for
 // the fields whose negation is generated differently, two-condition rules and the empty rule.
-func coreRules() []ruleSpec {
+func coreRules(thorough bool) []ruleSpec {
 	var out []ruleSpec
 	for _, f := range fields {
 		for _, vd := range f.vals {
 			if vd.flags&inPairs != 0 {
 				out = append(out, ruleOf(atom{Field: f.name, Values: vd.vals, Form: vd.form}))
-				break
+				if !thorough {
+					break
+				}
+				// thorough: every pair-level literal, and its negation, is a core rule
+				out = append(out, ruleOf(atom{Field: f.name, Not: true, Values: vd.vals, Form: vd.form}))
 			}
 		}
 	}
@@ -456,6 +460,10 @@ func coreRules() []ruleSpec {
 		ruleOf(pick("ports", "exact-8080", false), pick("when:request.headers[x-token]", "exact", false)),
 		ruleSpec{From: [][]atom{{pick("principals", "exact", false)}, {pick("namespaces", "prefix", false)}}},
 		ruleSpec{To: [][]atom{{pick("paths", "exact", false)}, {pick("ports", "exact-8080", false)}}},
+		// three conditions: `when` has to hold for every from / to entry
+		ruleSpec{To: [][]atom{{pick("paths", "exact", false)}, {pick("ports", "exact-8080", false)}}, When: []atom{pick("when:destination.ip", "cidr", false)}},
+		ruleSpec{From: [][]atom{{pick("principals", "exact", false)}, {pick("namespaces", "prefix", false)}}, When: []atom{pick("when:request.headers[x-token]", "exact", false)}},
+		ruleSpec{From: [][]atom{{pick("ipBlocks", "cidr", false)}}, To: [][]atom{{pick("methods", "exact", false)}}, When: []atom{pick("when:destination.port", "exact", true)}},
 		ruleSpec{}, // the empty rule matches everything
 	)
 	return out
